@@ -273,13 +273,12 @@ pub fn run(run: &Arc<Run>) {
     run.assume("tol_P(nu, p) = 1e-10 + min(5e-8 sqrt(nu), 1e-16 nu/|p - 1/2|) is the accuracy conceded to the crate's t quantile routine; between 90 000 and 110 000 dof either distribution is accepted ('about 100 000')");
     if let Some(case) = &run.replay_case {
         let mut l = run.local();
-        let kind: Kind = serde_json::from_value(case["kind"].clone()).unwrap();
-        let level = case["level"].as_f64().unwrap();
-        let _ = kind;
+        let level = case["level"].as_f64().unwrap_or(0.9);
         match case["what"].as_str().unwrap_or("") {
             "arith" => judge_arith(case["n"].as_u64().unwrap() as usize, &[level], &mut l),
             "unpaired" => judge_unpaired(case["na"].as_u64().unwrap() as usize, case["nb"].as_u64().unwrap() as usize, case["scale_b_log2"].as_i64().unwrap() as i32, &[level], &mut l),
             "proportion" => judge_proportion(case["n"].as_u64().unwrap() as usize, case["k"].as_u64().unwrap() as usize, &[level], &mut l),
+            "order" => crate::props::purity::order_independence("critical value", seed, case["i"].as_u64().unwrap(), &mut l),
             _ => {}
         }
         run.absorb(l);
@@ -321,6 +320,16 @@ pub fn run(run: &Arc<Run>) {
         let (nu, p) = needles[i as usize];
         l.count("pinned needle probes (dof, p) judged");
         judge_arith(nu + 1, &[p, 1.0 - p, 2.0 * p - 1.0], l);
+    });
+    // hidden state: critical values must not depend on which query ran before
+    run.par(run.cfg.by(150u64, 3000), |i, l| crate::props::purity::order_independence("critical value", seed, i, l));
+    // combined sample size beyond 100 000 with a small effective dof (one huge low-variance sample
+    // against a handful of noisy observations): still a Student-t critical value
+    let huge: Vec<(usize, usize, i32)> = vec![(99_990, 5, 8), (100_000, 3, 10), (100_001, 7, 9), (150_000, 4, 12), (200_000, 2, 12), (120_000, 9, 11)];
+    run.par(huge.len() as u64, |i, l| {
+        let (na, nb, sl) = huge[i as usize];
+        l.count("unpaired: combined size > 100 000 with a small effective dof");
+        judge_unpaired(na, nb, sl, &levels, l);
     });
     // real-valued dof
     let nun = run.cfg.by(600u64, 4000);
@@ -364,5 +373,7 @@ pub fn run(run: &Arc<Run>) {
         "level<1/2",
         "oracle cross-checked by quadrature",
         "pinned needle probes (dof, p) judged",
+        "unpaired: combined size > 100 000 with a small effective dof",
+        "order-independence groups judged",
     ]);
 }
